@@ -82,8 +82,10 @@ def ctok(x) -> int:
 
 
 # ----------------------------------------------------------------------------- values
-def make_values(seed, k, ne, h, w, spikes=False, nans=False):
-    """ne grids h x w of pairwise distinct dyadic floats (positions observable); optional spikes / NaNs"""
+def make_values(seed, k, ne, h, w, spikes=False, nans=False, flat=False):
+    """ne grids h x w of pairwise distinct dyadic floats (positions observable); optional spikes / NaNs; `flat` replaces the
+    ramp over rows and columns by fine-grained noise around one level (noise + spikes: many pixels sit near the filters' decision
+    boundary)"""
     rng = random.Random(f"C20-values-{seed}-{k}")
     used = set()
     out = []
@@ -92,7 +94,10 @@ def make_values(seed, k, ne, h, w, spikes=False, nans=False):
         for r in range(h):
             row = []
             for c in range(w):
-                v = 10000.0 * k + 1000.0 * e + 11.0 * r + 3.0 * c + rng.randint(0, 256) / 64 + 50.0
+                if flat:
+                    v = 10000.0 * k + 1000.0 * e + rng.randint(0, 1 << 22) / (1 << 19) + 50.0
+                else:
+                    v = 10000.0 * k + 1000.0 * e + 11.0 * r + 3.0 * c + rng.randint(0, 256) / 64 + 50.0
                 if seed % 2:  # full 53-bit mantissas: text round trips need all 17 significant digits
                     v += rng.random() / 128
                 if spikes and rng.random() < 0.15:
@@ -324,6 +329,48 @@ def fmt_names():
     return [n for n, f in FORMATS.items() if f.available()]
 
 
+# ----------------------------------------------------------------------------- shape classes
+EQ_COUNTS = [4, 6, 6, 8, 10, 12, 12, 12, 16, 18, 20, 24]  # pixel counts with at least three factorisations
+
+
+def factorisations(n, lo_w=1):
+    return [(r, n // r) for r in range(1, n + 1) if n % r == 0 and n // r >= lo_w]
+
+
+def equal_count_shapes(rng, n, lo_w_first=1):
+    """n >= 2 shapes with one pixel count that are not all the same shape: (r, c) next to (c, r), or several factorisations of
+    one number; only the first input may need lo_w_first columns (an instrument import)"""
+    count = rng.choice(EQ_COUNTS)
+    facs = factorisations(count)
+    if rng.random() < 0.4:  # a transposed pair, the rest repeats / adds factorisations
+        r, c = rng.choice([f for f in facs if f[0] != f[1]])
+        shapes = [(r, c), (c, r)] + [rng.choice(facs) for _ in range(n - 2)]
+    else:
+        shapes = rng.sample(facs, min(n, len(facs)))
+        shapes += [rng.choice(facs) for _ in range(n - len(shapes))]
+    rng.shuffle(shapes)
+    if shapes[0][1] < lo_w_first:
+        ok = [i for i, sh in enumerate(shapes) if sh[1] >= lo_w_first]
+        if ok:
+            i = rng.choice(ok)
+            shapes[0], shapes[i] = shapes[i], shapes[0]
+        else:
+            shapes[0] = rng.choice(factorisations(count, lo_w_first))
+    if len(set(shapes)) == 1:  # (only after the replacement above)
+        shapes[-1] = rng.choice([f for f in facs if f != shapes[0]])
+    return shapes
+
+
+STRIP = 512  # images with more rows / columns than one or two multiples of this are the "large" class of `filter`
+LONG_SIDES = [513, 514, 520, 600, 777, 1023, 1024, 1025, 1026, 1030, 1100, 1100, 1100, 1300]
+SHORT_SIDES = [1, 2, 3, 4, 5, 5, 6, 8, 8, 9, 10, 12, 12, 12]
+
+
+def long_shape(rng):
+    a, b = rng.choice(LONG_SIDES), rng.choice(SHORT_SIDES)
+    return (a, b) if rng.random() < 0.65 else (b, a)
+
+
 # ----------------------------------------------------------------------------- helpers
 def split_name(name: str):
     p = Path(name)
@@ -383,7 +430,10 @@ class C20(Prop):
     cases = {"quick": 500, "thorough": 5000}
     rule = ("generated command lines of convert / filter / stack over 1..5 inputs written per case (npz, text image with , ; tab "
             "delimiters and .txt/.text/.csv/.TXT names, Agilent batch with each collection method, Thermo iCap CSV in both layouts, "
-            "per-line CSV directory generic/Nu with and without x/y columns/TOFWERK), shapes 1x1..7x8 equal and unequal, pairwise "
+            "per-line CSV directory generic/Nu with and without x/y columns/TOFWERK), shapes 1x1..7x8 equal and unequal, a quarter of the "
+            "stacks over inputs with one pixel count but different shapes (transposed pairs, several factorisations of 4..24), a fifth of "
+            "the filter runs with an npz / text image longer than 512 or 1024 rows or columns (513..1300 by 1..12, ramp + noise + spikes "
+            "or flat noise + spikes, both filters, windows 3/5/7, thresholds 0.5..3), pairwise "
             "distinct values with full mantissas (spikes for the filters, NaNs), stacks of one instrument import followed by npz files, element subsets incl. unknown names, names present in only some inputs and inputs left with no element, "
             "--config, both filters with windows 3/5/7 and thresholds 0..3, both orientations, NaN/finite/default pad, output omitted / "
             "existing directory / file (lower and upper case suffix) / mismatching suffix / missing directory / file with several inputs, "
@@ -414,6 +464,14 @@ class C20(Prop):
     def build(self, rng, tier, cmd, **force):
         names = fmt_names()
         n = force.get("n", rng.choice([1, 2, 2, 3, 3, 3, 4, 5] if cmd == "stack" else [1, 1, 2, 2, 2, 3, 3, 4]))
+        # shape classes of the quantifier that independent small dimensions (almost) never produce
+        # stack: one pixel count, different shapes; filter: more than 512 / 1024 rows or columns
+        eqcount = force["eqcount"] if "eqcount" in force else (cmd == "stack" and rng.random() < 0.25)
+        large = force["large"] if "large" in force else (cmd == "filter" and rng.random() < 0.2)
+        if eqcount and n < 2:
+            n = rng.choice([2, 2, 3, 3, 4])
+        if large:
+            n = force.get("n", rng.choice([1, 1, 1, 2]))
         p_sub = {"quick": 0.08, "thorough": 0.5}[tier]
         mode = force.get("mode", "subproc" if rng.random() < p_sub else "inproc")
         heavy = 0.12 if tier == "quick" else 0.3  # csvdir spawns a process pool per load
@@ -421,7 +479,7 @@ class C20(Prop):
         pool = [f for f in names for _ in range(max(1, int(10 * weights[f])))]
         stems = rng.sample(["a", "b", "img", "scan1", "x.v2", "line_3", "Sample", "t0", "q"], n)
         subs = [rng.choice(["", "", "in1", "in2"]) for _ in range(n)]
-        equal = rng.random() < 0.3
+        equal = rng.random() < 0.3 and not large  # (the ordinary companions of a large image stay small)
         shape = None
         inputs = []
         if cmd == "stack":
@@ -429,8 +487,9 @@ class C20(Prop):
             kind = force.get("stack_fmt", rng.choice(["npz", "npz", "txt", "mixed"]))
             els = rng.sample(NPZ_ELEMENTS, rng.choice([1, 2, 2, 3]))
             first = None
+            eq_shapes = equal_count_shapes(rng, n, 2 if kind == "mixed" else 1) if eqcount else None
             for k in range(n):
-                sh = shape if (equal and shape) else None
+                sh = eq_shapes[k] if eqcount else shape if (equal and shape) else None
                 if kind == "txt":
                     fmt, e = "txt", None
                 elif kind == "npz":
@@ -446,13 +505,24 @@ class C20(Prop):
         else:
             share = rng.random() < 0.5  # npz inputs share (some) element names so that --elements subsets are interesting
             els = rng.sample(NPZ_ELEMENTS, rng.choice([2, 3, 4]))
+            big_at = rng.randrange(n) if large else None  # the other inputs of a `large` case are ordinary ones
             for k in range(n):
                 fmt = force.get("fmt") or rng.choice(pool)
                 e = None
                 if fmt == "npz" and share:
                     e = [x for x in els if rng.random() < 0.7] or els[:1]
                 sh = shape if (equal and shape) else None
+                flat = False
+                if k == big_at:  # cheap writers only; a few elements
+                    fmt = force.get("fmt") or rng.choice(["npz", "npz", "txt"])
+                    e = rng.sample(NPZ_ELEMENTS, rng.choice([1, 1, 2])) if fmt == "npz" else None
+                    sh = force.get("shape") or long_shape(rng)
+                    flat = rng.random() < 0.5
                 s = self.gen_input(rng, k, fmt, stems[k], subs[k], sh, e, spikes=(cmd == "filter"))
+                if flat:
+                    s["flat"] = True
+                if k == big_at:
+                    s["nans"] = False
                 shape = shape or (s["h"], s["w"])
                 inputs.append(s)
         fmt_out = force.get("format", rng.choice([".npz", ".npz", ".npz", ".csv", ".csv", ".vtk", ".txt" if rng.random() < 0.15 else ".npz"]))
@@ -492,6 +562,10 @@ class C20(Prop):
             case["elements"] = self.pick_elements(rng, all_els)
             case["filter"] = {"type": rng.choice(["mean", "median", None]), "size": rng.choice([3, 3, 5, 7, None]),
                               "threshold": rng.choice([0.0, 0.5, 1.0, 1.5, 3.0, None])}
+            if large:  # both filters, every odd window 3..7, thresholds that leave pixels on both sides of the decision
+                case["filter"] = {"type": force.get("ftype", rng.choice(["mean", "median", "median", None])),
+                                  "size": force.get("size", rng.choice([3, 5, 7, None])),
+                                  "threshold": force.get("threshold", rng.choice([0.5, 0.75, 1.0, 1.0, 1.25, 1.5, 2.0, 3.0, None]))}
         else:
             case["orientation"] = rng.choice(["vertical", "horizontal", None])
             case["pad"] = rng.choice(["default", "nan", -1.0, 0.0, 2.5, 1e6])
@@ -516,7 +590,7 @@ class C20(Prop):
                         rng = random.Random(f"C20-targeted-{i}")
                         i += 1
                         yield self.build(rng, "quick", cmd, n=n, okind=okind, format=fmt_out, mode="inproc",
-                                         fmt=rng.choice(["npz", "txt"]))
+                                         fmt=rng.choice(["npz", "txt"]), eqcount=False, large=False)
         # DESIGN 5.20 / 802513a: 3x4 over 5x2, both orientations, as a subprocess too
         for orient in ("vertical", "horizontal"):
             for mode in ("inproc", "subproc"):
@@ -524,10 +598,11 @@ class C20(Prop):
         # one subprocess run per sub-command and one per remaining input format
         for cmd in ("convert", "filter"):
             rng = random.Random(f"C20-targeted-sub-{cmd}")
-            yield self.build(rng, "quick", cmd, n=2, okind="dir", format=".npz", mode="subproc", fmt="npz")
+            yield self.build(rng, "quick", cmd, n=2, okind="dir", format=".npz", mode="subproc", fmt="npz", eqcount=False, large=False)
         for fmt in fmt_names():
             rng = random.Random(f"C20-targeted-fmt-{fmt}")
-            yield self.build(rng, "quick", "convert", n=1, okind="omitted", format=".npz", mode="inproc", fmt=fmt)
+            yield self.build(rng, "quick", "convert", n=1, okind="omitted", format=".npz", mode="inproc", fmt=fmt, eqcount=False,
+                             large=False)
         if "csvdir" in fmt_names():  # bcc3a26: a Nu directory with x/y columns reports an (x, y) spot spacing
             for cmd, suffix in (("convert", ""), ("filter", ".d")):
                 yield {"cmd": cmd, "mode": "inproc", "format": ".npz", "output": None, "missing_input": False, "relative": False,
@@ -542,6 +617,38 @@ class C20(Prop):
             yield {"cmd": "stack", "mode": "inproc", "inputs": [inp(0, "a", 2, 3), inp(1, "b", 4, 5), inp(2, "img", 3, 1)],
                    "format": ".csv", "output": {"kind": "file", "sub": "", "name": "st.csv"}, "missing_input": False,
                    "relative": False, "orientation": orient, "pad": "nan"}
+
+        # stack: one pixel count, different shapes (transposed pair, factorisations of one number)
+        def eq_case(i, kind, shapes, orient, mode="inproc", pad="nan"):
+            ins = []
+            for k, (h, w) in enumerate(shapes):
+                stem = ["a", "b", "img", "q", "t0", "scan1"][k]
+                if kind == "npz":
+                    ins.append({"fmt": "npz", "suffix": ".npz", "h": h, "w": w, "elements": ["A", "Fe56"], "config": [35.0, 140.0, 0.25],
+                                "nans": False, "stem": stem, "sub": "", "seed": 40 + i + k, "spikes": False})
+                else:
+                    ins.append({"fmt": "txt", "suffix": ".csv", "h": h, "w": w, "elements": ["_element_"], "delimiter": ",",
+                                "nans": False, "stem": stem, "sub": "", "seed": 40 + i + k, "spikes": False})
+            suffix = ".npz" if kind == "npz" else ".csv"
+            return {"cmd": "stack", "mode": mode, "inputs": ins, "format": suffix,
+                    "output": {"kind": "file", "sub": "", "name": "st" + suffix}, "missing_input": False, "relative": False,
+                    "orientation": orient, "pad": pad}
+        yield eq_case(0, "npz", [(2, 6), (6, 2)], "vertical")
+        yield eq_case(1, "txt", [(2, 6), (6, 2)], "horizontal", pad=-1.0)
+        yield eq_case(2, "npz", [(2, 6), (3, 4)], "horizontal", mode="subproc")
+        yield eq_case(3, "txt", [(1, 4), (2, 2), (4, 1)], "vertical", pad=0.0)
+        yield eq_case(4, "npz", [(3, 4), (1, 12), (12, 1), (4, 3), (2, 6), (6, 2)], "vertical")
+        yield eq_case(5, "txt", [(3, 4), (1, 12), (12, 1), (4, 3), (2, 6), (6, 2)], "horizontal")
+        # filter: images longer than 512 and 1024 rows / columns, both filters, windows 3 / 5 / 7
+        big = [((1100, 12), "median", 5, 1.0, "npz", "inproc"), ((1100, 12), "median", 3, 0.5, "txt", "inproc"),
+               ((1100, 12), "mean", 5, 1.0, "npz", "inproc"), ((12, 1100), "median", 7, 1.0, "npz", "inproc"),
+               ((12, 1100), "mean", 3, 1.5, "txt", "inproc"), ((600, 5), "median", 7, 1.0, "txt", "inproc"),
+               ((5, 600), "mean", 7, 0.75, "npz", "inproc"), ((513, 8), "median", 3, 1.5, "npz", "inproc"),
+               ((1025, 9), "median", 5, 1.25, "npz", "subproc"), ((1030, 4), None, None, None, "npz", "inproc")]
+        for i, (shape, ftype, size, thr, fmt, mode) in enumerate(big):
+            rng = random.Random(f"C20-targeted-large-{i}")
+            yield self.build(rng, "quick", "filter", n=1, large=True, shape=shape, ftype=ftype, size=size, threshold=thr, fmt=fmt,
+                             mode=mode, okind=["dir", "omitted", "file"][i % 3], format=".csv" if i % 4 == 3 else ".npz")
 
     @staticmethod
     def regression_case(orient, mode):
@@ -664,7 +771,8 @@ class C20(Prop):
                 raise core.InternalError(f"input format {spec['fmt']} has no writer in this tree")
             rel = self.input_rel(spec)
             (root / rel).parent.mkdir(parents=True, exist_ok=True)
-            vals = make_values(spec["seed"], k, len(spec["elements"]), spec["h"], spec["w"], spec["spikes"], spec["nans"])
+            vals = make_values(spec["seed"], k, len(spec["elements"]), spec["h"], spec["w"], spec["spikes"], spec["nans"],
+                               spec.get("flat", False))
             fmt.write(root / rel, spec, vals)
             data, params, config = fmt.direct(root / rel, spec)
             if list(data.dtype.names) != list(spec["elements"]) or tuple(data.shape) != (spec["h"], spec["w"]):
@@ -772,11 +880,23 @@ class C20(Prop):
             feats.add("filter:" + (case["filter"]["type"] or "default"))
             if changed_by_filter:
                 feats.add("filter:changed-values")
+            for axis, key in (("rows", "h"), ("cols", "w")):
+                longest = max(s[key] for s in case["inputs"])
+                if longest > 2 * STRIP:
+                    feats.add(f"filter:{axis}>1024")
+                elif longest > STRIP:
+                    feats.add(f"filter:{axis}>512")
+            if any(max(s["h"], s["w"]) > STRIP for s in case["inputs"]):
+                feats.add("filter:large-image:" + (case["filter"]["type"] or "default"))
         if cmd == "stack":
             feats.add("orient:" + (case["orientation"] or "default"))
             feats.add("pad:" + ("nan" if case["pad"] in ("default", "nan") else "finite"))
             if spec_["status"] == "ok" and len(shapes) > 1:
                 feats.add("stack:padding-needed")
+            if len(shapes) > 1 and len({s["h"] * s["w"] for s in case["inputs"]}) == 1:
+                feats.add("stack:equal-count-unequal-shapes")
+                if any((w, h) in shapes for h, w in shapes if h != w):
+                    feats.add("stack:transposed-pair")
         if any(s["nans"] for s in case["inputs"]):
             feats.add("nan-values")
         nontrivial = bool(spec_["files"]) or spec_["status"] == "error"
@@ -791,6 +911,9 @@ class C20(Prop):
         for i, s in enumerate(ins):
             for key in ("h", "w"):
                 lo = 2 if (key == "w" and s["fmt"] in ("agilent", "thermo", "csvdir")) else 1
+                for step in (256, 64, 16, 4):  # long sides of the `large` filter class
+                    if s[key] - step >= max(lo, 8):
+                        yield {**case, "inputs": ins[:i] + [{**s, key: s[key] - step}] + ins[i + 1:]}
                 if s[key] > lo:
                     yield {**case, "inputs": ins[:i] + [{**s, key: s[key] - 1}] + ins[i + 1:]}
             if s["fmt"] == "npz" and len(s["elements"]) > 1 and case["cmd"] != "stack":
